@@ -101,6 +101,12 @@ def check_recursion_args(ctx, P, rule, deleg):
                 else:
                     break
             d = b.single_def(m)
+            if not (d and d.kind == "call"):
+                # the map may come out of a helper as `Ok(map)?`: follow the value to the call that created it
+                lvm = b.trace(args[1])
+                if len(lvm) == 1 and lvm[0].kind == "call" and not lvm[0].path and not lvm[0].data[1]["dst"]["p"]:
+                    m = lvm[0].data[1]["dst"]["l"]
+                    d = b.single_def(m)
             fresh = bool(d and d.kind == "call" and callee_name(d.node) in ("std::collections::HashMap::new", "std::collections::HashMap::with_capacity"))
             muts = b.mutators.get(m, [])
             inserts = [(bb, t) for (bb, t, ai) in muts if callee_name(t) == "std::collections::HashMap::insert" and ai == 0]
